@@ -21,7 +21,7 @@ Definition is_sizes_ty (t : ty) : bool := match t with TyN n => String.eqb n "_m
 (* arguments, memory, and the (slot, cell, type) of every buffer *)
 Fixpoint bind_entry (P : prog) (ps : list param) (buffers : list (Z * value)) (sizes : list (string * Z))
          (builtins : list (string * value)) (M : memory)
-  : result (list (value + nat * list nat) * memory * list (Z * nat * ty)) :=
+  : result (list (value + nat * list nat) * memory * list (Z * nat * ty * value)) :=
   match ps with
   | [] => Done ([], M, [])
   | p :: ps' =>
@@ -40,7 +40,7 @@ Fixpoint bind_entry (P : prog) (ps : list param) (buffers : list (Z * value)) (s
                | ABuffer slot =>
                  match lookup_z slot buffers with
                  | Some v => mv <~ to_msl P 64 (pa_ty p) v ;;
-                             Done (inr (List.length M, []), (M ++ [Some mv])%list, [(slot, List.length M, pa_ty p)])
+                             Done (inr (List.length M, []), (M ++ [Some mv])%list, [(slot, List.length M, pa_ty p, v)])
                  | None => Fail "buffer not supplied"
                  end
                | _ => Fail ("not modelled: entry point parameter " ++ pa_name p)
@@ -63,6 +63,6 @@ Definition run_kernel (fuel : nat) (P : prog) (ep : string) (buffers : list (Z *
     b <~ bind_entry P (fd_params d) buffers sizes builtins M0 ;;
     let '(args, M1, outs) := b in
     r <~ run_fn P G fuel M1 d args ;;
-    rmap (fun o => let '(slot, c, t) := o in
-                   v <~ load (snd r) c [] ;; iv <~ from_msl P 64 t v ;; Done (slot, iv)) outs
+    rmap (fun o => let '(slot, c, t, shape) := o in
+                   v <~ load (snd r) c [] ;; iv <~ from_msl P 64 t v shape ;; Done (slot, iv)) outs
   end.
